@@ -182,6 +182,12 @@ func init() {
 		in := append([]byte{}, a[0].B...)
 		in = in[:len(in):len(in)]
 		pkt, err := packet.FromBytes(in)
+		// a second packet from the same slice: both are the caller's, neither may follow the other or the slice
+		pkt2, err2 := packet.FromBytes(in)
+		if (err == nil) != (err2 == nil) || (pkt == nil) != (pkt2 == nil) || (pkt != nil && (*pkt != *pkt2 || pkt == pkt2)) {
+			noteUnstable("FromBytes twice on one slice: the results differ or are the same object")
+		}
+		keepPkt("second packet from FromBytes", pkt2)
 		unchanged := bytes.Equal(in, a[0].B)
 		var pv Val = VL()
 		alias := false
